@@ -55,6 +55,11 @@ bool Instance::parse_transaction(const char* txdata, bool parse_amounts) {
     }
     tx = parse_tx(p);
     if (!tx) return false;
+    if (tx->vin.empty()) {
+        // nothing to debug, and the signature checker needs an input to refer to
+        fprintf(stderr, "error: the transaction has no inputs\n");
+        return false;
+    }
     while (amounts.size() < tx->vin.size()) amounts.push_back(0);
     if (tx->HasWitness()) sigver = SigVersion::WITNESS_V0;
     return true;
